@@ -208,9 +208,9 @@ type Case interface {
 	ready() bool
 	fire()
 	sendVal() (any, bool) // the value a send case offers
-	register(idx int)   // unbuffered channels: announce the offer while blocked
+	register(idx int)     // unbuffered channels: announce the offer while blocked
 	unregister()
-	force(f *forcedCase) // the counterpart completed the rendezvous for this case
+	force(f *forcedCase)       // the counterpart completed the rendezvous for this case
 	rcase() reflect.SelectCase // free-running: the real operation
 	rset(v reflect.Value, ok bool)
 	name() string
@@ -226,7 +226,7 @@ func RecvCase[C ~chan T | ~<-chan T, T any](c C) *RecvC[C, T] { return &RecvC[C,
 func (r *RecvC[C, T]) ready() bool                            { return recvReady(r.ch) }
 func (r *RecvC[C, T]) fire()                                  { r.V, r.OK = doRecv(r.ch) }
 func (r *RecvC[C, T]) name() string                           { return "recv:" + chanName(any(r.ch)) }
-func (r *RecvC[C, T]) sendVal() (any, bool) { return nil, false }
+func (r *RecvC[C, T]) sendVal() (any, bool)                   { return nil, false }
 func (r *RecvC[C, T]) register(idx int) {
 	if cap(r.ch) == 0 {
 		c := st(any(r.ch))
@@ -288,7 +288,7 @@ func (s *SendC[T]) unregister() {
 	}
 }
 func (s *SendC[T]) force(f *forcedCase) {}
-func (s *SendC[T]) name() string { return "send:" + chanName(any(s.ch)) }
+func (s *SendC[T]) name() string        { return "send:" + chanName(any(s.ch)) }
 func (s *SendC[T]) rcase() reflect.SelectCase {
 	return reflect.SelectCase{Dir: reflect.SelectSend, Chan: reflect.ValueOf(s.ch), Send: reflect.ValueOf(&s.v).Elem()}
 }
